@@ -245,6 +245,12 @@ class OutboxRelay(Entity):
             self.pending_count,
         )
 
+        # The relays are handed to the engine now, after the per-entry latencies:
+        # date them accordingly (an event dated before the clock is discarded and
+        # the entry, already marked relayed, would never reach the downstream).
+        for relay_event in relay_events:
+            relay_event.time = self.now
+
         # Reschedule if there are more pending entries or keep polling
         result = relay_events
         if self.pending_count > 0 or self._entries_written > 0:
